@@ -28,6 +28,15 @@ if "writer" in sections or len(sys.argv) == 1:
 if "ifdatawriter" in sections or len(sys.argv) == 1:
     from rules import writertab
     tab["ifdatawriter"] = writertab.ifdata_table(prog)
+if "a2ml" in sections or len(sys.argv) == 1:
+    from rules import c18
+    tab["a2ml"] = c18.a2ml_table(prog)
+if "loader" in sections or len(sys.argv) == 1:
+    from rules import c17
+    tab["loader"] = c17.loader_table(prog)
+if "cleanup" in sections or len(sys.argv) == 1:
+    from rules import c10
+    tab["cleanup"] = c10.cleanup_table(prog)
 if "limits" in sections:
     from rules import c12
     tab["limits"] = c12.limits_table(prog)
